@@ -996,7 +996,7 @@ func streamProto(c *Ctx) {
 	mkeys := []string{"X-Err", "X-Multi", "X-Err-Bin", "Trace-Id", "X-Trailer"}
 	reps := 4
 	if c.Thorough() {
-		reps = 40
+		reps = 300
 	}
 	var responses []struct {
 		proto, kind string
